@@ -23,7 +23,8 @@ type concRunner struct {
 	c       *cache.Cache
 	mu      sync.Mutex
 	feed    []NotiJ
-	armed   string // "", "now", "cb": park the next call of that kind
+	armed   string // "", "now", "cb": park at the armedAt-th call of that kind
+	armedAt int
 	parked  chan struct{}
 	release chan struct{}
 	now     int64
@@ -31,9 +32,13 @@ type concRunner struct {
 
 func (r *concRunner) maybePark(kind string) {
 	r.mu.Lock()
-	hit := r.armed == kind
-	if hit {
-		r.armed = ""
+	hit := false
+	if r.armed == kind {
+		r.armedAt--
+		if r.armedAt <= 0 {
+			hit = true
+			r.armed = ""
+		}
 	}
 	r.mu.Unlock()
 	if hit {
@@ -120,6 +125,7 @@ func runConc(c *Case) {
 	r.mu.Lock()
 	r.now = c.X.Now
 	r.armed = c.Park
+	r.armedAt = c.ParkAt
 	r.mu.Unlock()
 	xdone := make(chan struct{})
 	go func() { defer close(xdone); r.do(c.X) }()
@@ -199,8 +205,15 @@ func concTerm(t *termer, c *Case) string {
 	for i, s := range c.Targets {
 		tg[i] = t.str(s)
 	}
-	return fmt.Sprintf("CConc (Cfg %s %s [], %s, %s, %s, %s, %s, %s)", zlit(c.Cfg.Thr), vh.Bool(c.Cfg.EventDriven),
-		vh.List(tg), ops(c.Ops), t.op(c.X, names), ops(c.Y), vh.List(feed), t.tobs(c.CFinal))
+	blocked := "None"
+	switch {
+	case strings.Contains(c.CNote, "y-blocked"):
+		blocked = "(Some true)"
+	case strings.Contains(c.CNote, "y-finished-while-parked"):
+		blocked = "(Some false)"
+	}
+	return fmt.Sprintf("CConc (Cfg %s %s [], %s, %s, %s, %s, %s, %s, %s, %s)", zlit(c.Cfg.Thr), vh.Bool(c.Cfg.EventDriven),
+		vh.List(tg), ops(c.Ops), t.op(c.X, names), ops(c.Y), vh.Bool(c.Park == "now"), blocked, vh.List(feed), t.tobs(c.CFinal))
 }
 
 func addConcCase(e *emitter, c *Case) {
@@ -237,14 +250,16 @@ func generateConc(e *emitter, o vh.Opts, r *vh.Rand) {
 	type xs struct {
 		op   Op
 		park []string
+		ats  []int // which call of that kind parks (Reset stamps every announcement)
 	}
 	xsl := []xs{
-		{Op{K: "remove", Now: N, Tgt: "t"}, []string{"now", "cb"}},
-		{Op{K: "reset", Now: N, Tgt: "t"}, []string{"now", "cb"}},
-		{Op{K: "upd", Now: N, N: leaf("t", "b", 9, 2)}, []string{"cb"}},
-		{Op{K: "upd", Now: N, N: delN(9, pfx("t", "a"), pth("*"))}, []string{"cb"}},
-		{Op{K: "sync", Now: N, Tgt: "t"}, []string{"now", "cb"}},
-		{Op{K: "connect", Now: N, Tgt: "t"}, []string{"now", "cb"}},
+		{Op{K: "remove", Now: N, Tgt: "t"}, []string{"now", "cb"}, []int{1}},
+		// Reset: first call (a metadata update) and later ones, up to the announcement of the root deletes
+		{Op{K: "reset", Now: N, Tgt: "t"}, []string{"now", "cb"}, []int{1, 2, 4, 6, 8, 12, 13, 14, 15}},
+		{Op{K: "upd", Now: N, N: leaf("t", "b", 9, 2)}, []string{"cb"}, []int{1}},
+		{Op{K: "upd", Now: N, N: delN(9, pfx("t", "a"), pth("*"))}, []string{"cb"}, []int{1, 2}},
+		{Op{K: "sync", Now: N, Tgt: "t"}, []string{"now", "cb"}, []int{1}},
+		{Op{K: "connect", Now: N, Tgt: "t"}, []string{"now", "cb"}, []int{1, 2}},
 	}
 	ysl := func(x Op) [][]Op {
 		out := [][]Op{
@@ -272,11 +287,17 @@ func generateConc(e *emitter, o vh.Opts, r *vh.Rand) {
 		for _, su := range setups {
 			for _, x := range xsl {
 				for _, pk := range x.park {
-					for _, y := range ysl(x.op) {
-						xo := x.op
-						c := &Case{Family: "atomicity", Kind: "conc", Cfg: CfgJ{EventDriven: false}, Targets: []string{"t", "u"},
-							Ops: append([]Op{}, su...), X: &xo, Y: append([]Op{}, y...), Park: pk}
-						e.add(c)
+					for _, at := range x.ats {
+						ys := ysl(x.op)
+						if at > 1 && !o.Thorough() {
+							ys = ys[:3] // update new leaf, update same leaf, wildcard delete
+						}
+						for _, y := range ys {
+							xo := x.op
+							c := &Case{Family: "atomicity", Kind: "conc", Cfg: CfgJ{EventDriven: false}, Targets: []string{"t", "u"},
+								Ops: append([]Op{}, su...), X: &xo, Y: append([]Op{}, y...), Park: pk, ParkAt: at}
+							e.add(c)
+						}
 					}
 				}
 			}
